@@ -238,6 +238,31 @@ def run_case(case):
                     check_partition(out, fail, env.fs_backend(sc.path("c")).read_result(cm), want, label, what + ", re-read from disk")
             except Exception as e:
                 fail("call returning a partition raises " + type(e).__name__, "%s %s: %r" % (label, what, e))
+        # a parent published under a key override in one store, a child in another store that already holds entries under the
+        # same override names (another partition published there under the same key)
+        if case["idx"] % 2 == 0 and not out["viol"]:
+            pk = KEYPOOL[: 2 + case["idx"] % 3]
+            ck = [KEYPOOL[(case["idx"] // 2) % len(KEYPOOL)]]
+            for name, keys, lvl in (("oparent", pk, "op"), ("cother", pk, "co"), ("ochild", ck, "oc")):
+                ffuncs.TABLE[cid + "/" + name] = {"kind": ["mem", "disk"][(case["idx"] // 2 + len(name)) % 2],
+                                                  "make": level_factory(case["seed"], case["idx"], lvl, keys), "container": "dict"}
+            want = dict(ffuncs.TABLE[cid + "/oparent"]["make"]())
+            want.update(ffuncs.TABLE[cid + "/ochild"]["make"]())
+            what = "child (keys %s) in another cluster of a parent (keys %s) published under a key override that the child's store knows too" % (ck, pk)
+            try:
+                ffuncs.cother(cid)
+                got = ffuncs.ochild(cid)
+                out["obs"]["children_of_a_parent_under_a_key_override"] += 1
+                check_partition(out, fail, got, want, label, what + ", value handed back by the computing call")
+                later = ffuncs.ochild(cid)
+                check_partition(out, fail, later, want, label, what + ", later call")
+                cm = ffuncs.ochild.memento(cid)
+                if cm is not None:
+                    check_partition(out, fail, env.fs_backend(sc.path("c")).read_result(cm), want, label, what + ", re-read from disk")
+                check_partition(out, fail, ffuncs.cother(cid), dict(ffuncs.TABLE[cid + "/cother"]["make"]()), label,
+                                "the other partition published under that key override, later call")
+            except Exception as e:
+                fail("call returning a partition raises " + type(e).__name__, "%s %s: %r" % (label, what, e))
         # a function that hands on, as its own result, the partition another function returned (computed just now, served
         # from the cache, or read back from disk)
         if not out["viol"]:
